@@ -193,6 +193,16 @@ def noise_precedence(c):
     c.ensures("model-optics-win-per-key", c.and_(c.eq(opt['medium_index'], n_model), c.eq(opt['illum_wavelen'], 0.66)))
     bare = data_grid(np.ones((2, 2)), spacing=0.1)
     c.ensures("missing-optics-raise", c.outcome(m4._find_optics, pars1, bare).raised(MissingParameter))
+    # a model without optics of its own reads them from the data of EACH call: nothing is remembered from an earlier data set
+    w2, i2 = c.real("second_wavelen", pos=True, sample=(0.4, 0.5)), c.real("second_index", pos=True, sample=(1.4, 1.5))
+    other = update_metadata(_data(c, noise_attr=s_data, prefix="e"), illum_wavelen=w2, medium_index=i2, illum_polarization=(0, 1))
+    first = c.call(m2._find_optics, pars1, data_with)
+    second = c.call(m2._find_optics, pars1, other)
+    c.ensures("optics-read-from-the-data-of-each-call", c.and_(c.eq(first['illum_wavelen'], 0.66), c.eq(first['medium_index'], 1.33),
+                                                               c.eq(second['illum_wavelen'], w2), c.eq(second['medium_index'], i2),
+                                                               c.eq(np.asarray(second['illum_polarization'])[:2], np.array([0.0, 1.0]))))
+    back_again = c.call(m2._find_optics, pars1, data_with)
+    c.ensures("and-again-from-the-first", c.and_(c.eq(back_again['illum_wavelen'], 0.66), c.eq(back_again['medium_index'], 1.33)))
     prior_noise = Uniform(0.01, 1.0)
     m5 = ExactModel(uni, calc_func=_Forward(c), theory=th, noise_sd=prior_noise)
     v_noise = c.real("v_noise", sample=(0.01, 1.0))
